@@ -10,6 +10,7 @@ against the natively compiled kernels on every run (translator validation).
 """
 import math
 import time
+from fractions import Fraction
 import z3
 from . import xr
 from .xr import XR, b_and, b_or, b_not
@@ -158,6 +159,7 @@ class Exec:
         self.globals_init = {}
         self.trace = None
         self.dump_queries = None  # list collecting (smt2, result) samples for cross-solver checks
+        self.exact_consts = False  # symbolic runs: literal/converted constants are exact Fractions (consistent with XR's exact reals)
         self.stubs = {}           # function name -> callable(path, caller, ins, argvalues): replaces a callee (stated per harness)
         self.floor_hook = None    # callable(path, operand, is_ceil) -> XR, or None for the normal semantics
         self.fptosi_hook = None   # callable(path, operand, target type) -> int value, or None for the normal semantics
@@ -347,7 +349,11 @@ class Exec:
         k = c.kind
         if k == 'reg':
             return env[c.v]
-        if k in ('int', 'float', 'bool'):
+        if k == 'float':
+            if self.exact_consts and math.isfinite(c.v):
+                return Fraction(c.v)
+            return c.v
+        if k in ('int', 'bool'):
             return c.v
         if k == 'null':
             return None
@@ -552,7 +558,7 @@ class Exec:
             if isinstance(v, bool):
                 v = int(v)
             if is_concrete_int(v):
-                return float(v)
+                return Fraction(v) if self.exact_consts else float(v)
             if v.sort() == z3.RealSort():
                 return XR(v)      # real-valued stand-in for an integer (pure-NRA harnesses)
             return XR(z3.ToReal(v))   # exact below 2^53 (assumption stated in the evidence)
@@ -643,6 +649,10 @@ class Exec:
         if name == 'sqrt':
             v = a[0]
             if xr.is_conc(v):
+                if isinstance(v, Fraction) and v >= 0:
+                    n, d = math.isqrt(v.numerator), math.isqrt(v.denominator)
+                    if n * n == v.numerator and d * d == v.denominator:
+                        return Fraction(n, d)
                 return math.sqrt(v) if v >= 0 else math.nan
             path.fresh += 1
             s = z3.Real('sqrt!%d' % path.fresh)
@@ -672,6 +682,8 @@ class Exec:
                       ninf=b_and(v.fin(), x == 0))
         if name == 'pow':
             x, y = a
+            if isinstance(x, Fraction) and xr.is_conc(y) and float(y) == int(float(y)) and 0 <= float(y) <= 8:
+                return x ** int(float(y))
             if xr.is_conc(x) and xr.is_conc(y):
                 try:
                     return math.pow(x, y)
